@@ -374,9 +374,30 @@ def nested_helper_cases(ctx):
     ctx.count("nested-helper kernels (lookups only inside loops/branches, a name in both constant tables) on two routes under two specs", n)
 
 
+def translated_tracer(ctx, who="C01"):
+    """ActionTracer's three handlers translated from taskgen.py on every run (harness/gen/tracer_translate.py: symbolic execution of the
+    statement lists, fail-closed) and proved to give the outcome of Model.Tracer.istep for every state and statement; the refinement and
+    well-formedness theorems restated for the translation"""
+    from gen import tracer_translate
+    from vcommon import paths
+    name = "taskgen.py: ActionTracer's handlers are inside the translated fragment (generated model Gen_%s_src.v)" % who
+    try:
+        body, info = tracer_translate.generate(paths.REPO)
+    except Exception as e:
+        ctx.obligation(name, False, f"{type(e).__name__}: {e}"[:300])
+        return
+    ctx.obligation(name, True)
+    ctx.extra["translated_handlers"] = info
+    ok, log = coqrun.compile_lemma_file(ctx.bdir, f"Gen_{who}_src", body)
+    closed = log.count("Closed under the global context")
+    ctx.obligation("the translated handlers have the outcome of the hand model on every state and statement (gen_istep_eq), hence "
+                   "gen_tracer_refines_reference and gen_traced_paths_are_well_formed; closed under the global context", ok and closed >= 3, log[-600:])
+
+
 def run(ctx):
     S = tweezer_prog.harness_spec()
     reflect_tables(ctx, S)
+    translated_tracer(ctx)
     helper_chain_histories(ctx)
     nested_helper_cases(ctx)
     ctx.rule = ("random @tweezer kernels from a grammar (straight-line AOD calls, for/if, typed and untyped helper kernels, closures, "
